@@ -4,6 +4,7 @@ CONSTANTS
   MaxCalls = 5
   MaxBlocks = 19
   ApiLevel = FALSE
+  Structured = FALSE
   DevUndefinedGoto = TRUE
   DevDuplicateLabel = TRUE
   EmitCases = TRUE
